@@ -220,12 +220,34 @@ def replay(rec):
 
 
 def _worker(ob):
-    return run_obligation(ob, ob.get("timeout_s", 900))
+    # the AST interpreter recurses deeply: run it in a thread with a large stack
+    import threading
+    sys.setrecursionlimit(200000)
+    threading.stack_size(512 * 1024 * 1024)
+    box = {}
+
+    def target():
+        box["r"] = run_obligation(ob, ob.get("timeout_s", 900))
+    th = threading.Thread(target=target)
+    th.start()
+    th.join()
+    return box.get("r") or {"name": ob["name"], "params": ob.get("params", {}), "status": "error", "detail": "worker thread died", "paths": 0}
 
 
 def run_all(pid, tier, obligations, extra_cov=None):
     """discharge obligations on all cores; -> dict(code, coverage, assumptions, violations)"""
     t0 = time.time()
+
+    def cost(ob):      # longest first, so that the pool is not left waiting for a late long obligation
+        p = ob.get("params", {})
+        c = ob.get("cost", 0)
+        for k, v in p.items():
+            if isinstance(v, list):
+                c += 10 * sum(x for x in v if isinstance(x, int)) + 5 * len(v)
+            elif isinstance(v, int) and not isinstance(v, bool):
+                c += v
+        return -c
+    obligations = sorted(obligations, key=cost)
     ctx = mp.get_context("fork")
     with ctx.Pool(min(common.NCPU, max(1, len(obligations)))) as pool:
         results = pool.map(_worker, obligations, chunksize=1)
